@@ -56,7 +56,9 @@ func (c *c11World) ordinaryRequest(preferLengthChange bool) *c11Req {
 		return c.reqLengthsFam(1)
 	}
 	for i := 0; i < 6; i++ {
-		if r := c.drawRequest(); r.kind != "Start" && r.kind != "Stop" {
+		// (nor a configuration request: whether it meets the source before or after the other client's
+		// Start / Stop decides what the next run looks like)
+		if r := c.drawRequest(); r.kind != "Start" && r.kind != "Stop" && !r.config {
 			return r
 		}
 	}
@@ -152,6 +154,7 @@ func (c *c11World) concurrentStart() {
 	var ok bool
 	var dummy string
 	c.sc.SendAllStatus(&dummy, &ok)
+	c.ensureConfigured()
 	if c.kind != 3 && c11HoldConfigSave != nil {
 		// A configuration save in progress: PrepareRun waits for it. The save takes its own time, whatever
 		// the clients do meanwhile (with one request served at a time, client A's requests below wait for
